@@ -161,6 +161,7 @@ def networks(tier, seed):
                     (["GRAIN-", "H+"], ["GRAIN0", "H"], dict(alpha=4.0))])
     yield N("charge-ladder", [(["GRAIN0", "e-"], ["GRAIN-"], dict(alpha=1.0)), (["GRAIN-", "e-"], ["GRAIN--"], dict(alpha=2.0)),
                               (["GRAIN--", "H+"], ["GRAIN-", "H"], dict(alpha=3.0)), (["C", "C++"], ["C+", "C+"], dict(alpha=4.0)),
+                              (["GRAIN0", "H+"], ["GRAIN+", "H"], dict(alpha=7.0)), (["GRAIN+", "GRAIN-"], ["GRAIN0", "GRAIN0"], dict(alpha=8.0)),
                               (["C-", "C+"], ["C", "C"], dict(alpha=5.0)), (["C--", "C++"], ["C", "C"], dict(alpha=6.0))])
     yield N("long-chains", [(["C11", "H"], ["HC11"], dict(alpha=1.0)), (["HC11", "N"], ["HC11N"], dict(alpha=2.0)), (["C", "C10H2"], ["C11", "H2"], dict(alpha=5.0)),
                             (["C10H2", "C2H"], ["C12H3"], dict(alpha=3.0)), (["C12H3", "O"], ["C11", "HCO", "H2"], dict(alpha=4.0))])
@@ -316,8 +317,21 @@ def expected_rhs(net, yv, kv, khv, kcv, idents, ode_modifier):
     species = list(net.species)
     n = len(species)
     out = [Fraction(0)] * (n + 1)
+    idents_ = [indep_identity(sp.name) for sp in species]
+
+    class _Slots:
+        """slot of a species by an independent reading of its name (falls back to naunet's == for spellings outside the mini grammar)"""
+
+        def index(self, s):
+            ident = indep_identity(s.name)
+            if ident is not None and not (s.name.startswith("G") and s.is_surface):
+                hit = [i for i, x in enumerate(idents_) if x == ident and not (species[i].name.startswith("G") and species[i].is_surface)]
+                if len(hit) == 1:
+                    return hit[0]
+            return species.index(s)
+    slots_of = _Slots()
     for r, reac in enumerate(net.reactions):
-        slots = [species.index(s) for s in reac.reactants]
+        slots = [slots_of.index(s) for s in reac.reactants]
         flux = kv[r]
         for s in slots:
             flux *= yv[s]
@@ -326,7 +340,7 @@ def expected_rhs(net, yv, kv, khv, kcv, idents, ode_modifier):
         for s in slots:
             out[s] -= flux
         for p in reac.products:
-            out[species.index(p)] += flux
+            out[slots_of.index(p)] += flux
     return out
 
 
@@ -471,10 +485,24 @@ def check_network(label, net, tier, seed, want):
                     t *= yv[species.index(s)]
                 hsum += t
             csum = Fraction(0)
+            cnames = list(getattr(net, "_cooling_names", []) or [])
             for c, proc in enumerate(net.cooling):
                 t = kcv[c]
-                for s in proc.reactants:
-                    t *= yv[species.index(s)]
+                # colliding partners from the literature (Cen 1992), not from the object under test
+                partners = COLLIDERS.get(cnames[c]) if c < len(cnames) else None
+                if partners is not None:
+                    for nm in partners:
+                        hit = [i for i, sp in enumerate(species) if indep_identity(sp.name) == indep_identity(nm)]
+                        if len(hit) != 1:
+                            V("C01", f"thermal-partner-slot: {cnames[c]} needs {nm}, found {len(hit)} slots", backend=bname)
+                            t = None
+                            break
+                        t *= yv[hit[0]]
+                    if t is None:
+                        continue
+                else:
+                    for s in proc.reactants:
+                        t *= yv[species.index(s)]
                 csum += t
             want_t = (idents["gamma"] - 1) * (hsum - csum) / idents["kerg"] / idents["npar"]
             if tslot not in got:
@@ -580,6 +608,9 @@ def check_network(label, net, tier, seed, want):
     return viol
 
 
+COLLIDERS = {"CIC_HI": ["H", "e-"], "CIC_HeI": ["He", "e-"], "CIC_HeII": ["He+", "e-"], "CIC_He_2S": ["He+", "e-", "e-"],
+             "RC_HII": ["H+", "e-"], "RC_HeI": ["He+", "e-"], "RC_HeII": ["He+", "e-"], "RC_HeIII": ["He++", "e-"],
+             "CEC_HI": ["H", "e-"], "CEC_HeII": ["He+", "e-"]}
 _ELEMS = ["GRAIN", "He", "Si", "Mg", "Fe", "Na", "Cl", "H", "D", "C", "N", "O", "S", "P", "F"]
 
 
